@@ -92,11 +92,12 @@ def register(E):
                  'at_entry(index) >= len(SPLIT[0])',
                  'len(SPLIT[1]) == 0 or at_entry(index) == len(SPLIT[0])'],
             modifies=['self.routes'])},
+        # OLD = (routes before the position list.insert(index) uses, routes from there on)
+        ghost={'OLD': 'split_at(self.routes, INSERT_AT(index, len(self.routes)))'},
         ensures=[
             # the new routes are inserted contiguously, in order, at the requested position;
             # every other route keeps its relative order
-            'self.routes == old(self.routes)[:INSERT_AT(old(index), len(old(self.routes)))] + list(bound_routes) + '
-            'old(self.routes)[INSERT_AT(old(index), len(old(self.routes))):]',
+            'self.routes == OLD[0] + list(bound_routes) + OLD[1]',
         ],
         exc_ensures=['self.routes == old(self.routes)'],
         may_raise_any=True,
